@@ -1,6 +1,104 @@
+import Proofs.C06.Polymod
+import Proofs.C06.Net
 /-!
-# C06 — property theorems only (see DESIGN.md §3 C06).
+# C06 — text encodings and addresses round-trip and accept exactly what the specs accept
+
+Property theorems only.  `Gen.*` constants/tables are regenerated from /repo on every run; the
+functions are the hand models of `Model/C06` (tied to btclib by correspondence) and the literal
+BIP173/BIP350 transcription `Btc.Bech32Ref` (the specification).
 -/
 namespace Props.C06
+open Btc Btc.Bech32 Gen.Bech32
+
+/-- T2 (tables): the alphabet, the five generators and the two checksum constants btclib carries are
+    the BIPs'; every `_TAPS` entry is the XOR of the generators selected by its index bits. -/
+theorem bech32_constants_are_the_bips :
+    ALPHABET = Bech32Ref.CHARSET ∧ GENERATOR = Bech32Ref.generator ∧
+    BECH32_1_CONST = 1 ∧ BECH32_M_CONST = Bech32Ref.BECH32M_CONST ∧
+    (∀ top, top < 32 → TAPS.getD top 0 = Bech32Ref.genLoop top GENERATOR 0 0) :=
+  ⟨alphabet_eq_ref, generator_eq_ref, consts_eq_ref.1, consts_eq_ref.2, taps_from_generator⟩
+
+/-- T2 (polymod): btclib's table-driven `_polymod` equals the BIP173 reference `bech32_polymod`
+    (five conditional XORs per value) on every sequence of values below 2^30 — the only ones that
+    can reach it (5-bit digits and `ord(c) >> 5`); a larger value is an IndexError in btclib. -/
+theorem polymod_table_eq_reference (values : List Nat) (h : ∀ v ∈ values, v < 2 ^ 30) :
+    Bech32.polymod values = Bech32Ref.polymod values :=
+  polymodFrom_eq_ref values _ (by decide) h
+
+/-- T3 (linearity): XOR-ing an error word into the values XORs its own (start-0) residue into the
+    checksum: a corruption is undetected iff its error word is a codeword. -/
+theorem polymod_xor_linear (vs : List Nat) (a d : Nat) (ha : a < 2 ^ 30) (hd : d < 2 ^ 30)
+    (hv : ∀ v ∈ vs, v < 2 ^ 30) :
+    polymodFrom (a ^^^ d) vs = polymodFrom a vs ^^^ polymodFrom d (vs.map fun _ => 0) := by
+  rw [polymodFrom_xor vs a d ha hd hv]
+  congr 1
+  clear ha hv
+  induction vs generalizing d with
+  | nil => rfl
+  | cons v vs ih =>
+    simp only [List.length_cons, shiftK, List.map_cons, polymodFrom, List.foldl_cons]
+    exact ih _ (step0_lt d)
+
+/-- T3 (single substitution): two value sequences of ANY length that differ in exactly one position
+    (anywhere: expanded human-readable part, data or checksum) never have the same checksum, so
+    at most one of them verifies against a given constant: every single-character substitution in
+    the data part of a valid string of any length is refused (stronger than the BIP's 90 characters). -/
+theorem single_substitution_detected (pre post : List Nat) (v v' m : Nat)
+    (hpost : ∀ x ∈ post, x < 2 ^ 30) (hv : v < 2 ^ 30) (hv' : v' < 2 ^ 30) (hne : v ≠ v')
+    (h1 : Bech32.polymod (pre ++ v :: post) = m) : Bech32.polymod (pre ++ v' :: post) ≠ m := by
+  intro h2
+  exact hne (single_substitution pre post v v' hpost hv hv' (h1.trans h2.symm))
+
+/-- T3 (adjacent transposition): swapping two adjacent distinct 5-bit values is always detected. -/
+theorem adjacent_transposition_detected (pre post : List Nat) (a b m : Nat)
+    (hpost : ∀ x ∈ post, x < 2 ^ 30) (ha : a < 32) (hb : b < 32) (hne : a ≠ b)
+    (h1 : Bech32.polymod (pre ++ a :: b :: post) = m) : Bech32.polymod (pre ++ b :: a :: post) ≠ m := by
+  intro h2
+  exact hne (adjacent_transposition pre post a b hpost ha hb (h1.trans h2.symm))
+
+/- NOT proved (`bch_four_errors_partial` would be its name): the full BCH guarantee of BIP173 —
+   any error pattern touching at most 4 characters of a string of at most 90 characters is detected.
+   It needs the BCH bound over GF(1024) (not in Mathlib) or a 2·10¹² case enumeration. -/
+
+-- non-vacuity: a real checksum ("a12uel5l" of BIP173: hrp "a", no data), and what the theorems say about it
+example : Bech32.polymod (hrpExpand [97] ++ [10, 28, 25, 31, 20, 31]) = 1 := by decide
+example : Bech32.polymod (hrpExpand [97] ++ [10, 28, 25, 30, 20, 31]) ≠ 1 :=
+  single_substitution_detected (hrpExpand [97] ++ [10, 28, 25]) [20, 31] 31 30 1
+    (by decide) (by decide) (by decide) (by decide) (by decide)
+example : Bech32.polymod [3, 0, 1, 40000] = Bech32Ref.polymod [3, 0, 1, 40000] :=
+  polymod_table_eq_reference _ (by decide)
+
+/-! ## Networks and witness programs (tables generated from `network.py` / `b32.py`) -/
+open Btc.Address Gen.Net in
+/-- T5 (network separation): no address prefix, WIF prefix, bech32 hrp or extended-key version of a
+    main network equals one of a test network — a mainnet string is never read as a test one. -/
+theorem mainnet_test_prefixes_disjoint : ∀ a ∈ NETWORKS, ∀ b ∈ NETWORKS, a.isMain = true → b.isMain = false →
+    a.wif ≠ b.wif ∧ a.p2pkh ≠ b.p2pkh ∧ a.p2sh ≠ b.p2sh ∧ a.p2pkh ≠ b.p2sh ∧ a.p2sh ≠ b.p2pkh ∧
+    a.hrp ≠ b.hrp ∧ (∀ v ∈ versionsOf a, v ∉ versionsOf b) := main_test_disjoint
+
+open Btc.Address Gen.Net in
+/-- T5 (lookup): `network_from_key_value` (first network carrying the value) answers a network of the
+    same type sharing the prefix it was written with, for hrp / p2pkh / p2sh / wif of every network;
+    and a p2sh prefix is never read as p2pkh (looked up first by `h160_from_address`). -/
+theorem network_lookup_preserves_type : ∀ n ∈ NETWORKS,
+    (∀ m, networkFrom (·.hrp) n.hrp = some m → m.isMain = n.isMain ∧ m.hrp = n.hrp) ∧
+    (∀ m, networkFrom (·.p2pkh) n.p2pkh = some m → m.isMain = n.isMain ∧ m.p2pkh = n.p2pkh) ∧
+    (∀ m, networkFrom (·.p2sh) n.p2sh = some m → m.isMain = n.isMain ∧ m.p2sh = n.p2sh) ∧
+    (∀ m, networkFrom (·.wif) n.wif = some m → m.isMain = n.isMain ∧ m.wif = n.wif) ∧
+    networkFrom (·.p2pkh) n.p2sh = none := lookup_preserves_type
+
+open Btc.Address Gen.Net in
+/-- `hrp ++ "1"` of one network is never a proper prefix of another's (`bc1` vs `bcrt1`), so
+    `is_segwit_prefixed` cannot attribute an address to the wrong family. -/
+theorem hrp_separator_prefix_free : ∀ a ∈ NETWORKS, ∀ b ∈ NETWORKS,
+    (a.hrp ++ [49]).isPrefixOf (b.hrp ++ [49]) = true → a.hrp = b.hrp := hrp_prefix_free
+
+/-- T5 (program sizes): what `bytes_from_witness_program` admits (table generated by evaluating it) is
+    exactly BIP141: versions 0..16, 2..40 bytes, and 20 or 32 bytes for version 0 — for ALL (ver, n). -/
+theorem witness_program_sizes (ver n : Nat) :
+    Address.programOk ver n = true ↔ ver ≤ 16 ∧ 2 ≤ n ∧ n ≤ 40 ∧ (ver = 0 → n = 20 ∨ n = 32) :=
+  Address.programOk_iff ver n
+
+example : Address.programOk 0 20 = true ∧ Address.programOk 0 21 = false ∧ Address.programOk 16 40 = true := by decide
 
 end Props.C06
